@@ -196,12 +196,12 @@ Emit == /\ PrintT(<<"VAL", ToJson(out)>>)
 ---------------------------------------------------------------------------
 (* SECOND INSTANCE: calls of a memoized function (HashKey section 4), specification CallSpec.          *)
 (*                                                                                                    *)
-(* The universe of calls f(*args, **kw), for both signatures.  Keyword names "q", "r" (parameters of   *)
+(* The universe of calls f( *args, **kw), for both signatures.  Keyword names "q", "r" (parameters of   *)
 (* the fixed signature).  The argument pool CX holds, next to two ints and a list, the LOOK-ALIKES OF   *)
 (* THE PARTS OF A CALL: tuples that could be an `args`, dicts with string keys that could be a          *)
 (* `kwargs`, a (name, value) tuple that could be one keyword item.  The universe is closed under         *)
-(* "packing": for every tuple t in CT and dict d in CD both the call f(*t, **d) and the positional-only  *)
-(* call f(t, d) are members, likewise f(x, q=y) / f(x, y) / f(x, r=y) / f(x, ("q", y)) and f(*t) / f(t). *)
+(* "packing": for every tuple t in CT and dict d in CD both the call f( *t, **d) and the positional-only  *)
+(* call f(t, d) are members, likewise f(x, q=y) / f(x, y) / f(x, r=y) / f(x, ("q", y)) and f( *t) / f(t). *)
 (* Quick tier (Depth 1): positional sequences of length 2 are ints x ints, tuple x dict, dict x tuple    *)
 (* and 1 x anything; thorough (Depth >= 2): every sequence of length <= 2 over CX.                       *)
 Nq == Str("q")     Nr == Str("r")
@@ -223,19 +223,31 @@ CK  == [i \in 1..CN |-> MemoKey(CU[i], WrapperAsCoded, Repaired)]      \* the wr
 CKB == [i \in 1..CN |-> MemoKey(CU[i], {"bareargs"}, Repaired)]        \* the two variants (teeth)
 CKV == [i \in 1..CN |-> MemoKey(CU[i], {"kwvalues"}, Repaired)]
 SameFn(i, j) == CU[i].s = CU[j].s                                      \* calls of one function share one cache
+FnIdx == [sg \in {"var", "fixed"} |-> {j \in 1..CN : CU[j].s = sg}]     \* the calls of each function
+Fn(i) == FnIdx[CU[i].s]
+CallLawStride == 2 * LawStride
+BV == [i \in 1..CN |-> Tuple(Bound(CU[i]))]                            \* what the function receives
+CV == [i \in 1..CN |-> CallV(CU[i])]                                   \* the object (args, kwargs)
 
+(* The expected pattern is decided by the operators of HashKey (SameArguments, Eq, CallDontCare).  Only to    *)
+(* keep the quadratic evaluation cheap they are applied to the candidates a necessary condition leaves:       *)
+(* each of the three relations implies Python-equality of what the functions receive (pyb) or of the          *)
+(* (args, kwargs) objects (pyc).  InvCallOracle re-evaluates them WITHOUT the prefilter on every              *)
+(* CallLawStride-th case.                                                                                     *)
 CallExpect(i) ==
-    LET same == {j \in 1..CN : SameArguments(CU[i], CU[j])}             \* expected pattern (the oracle)
-        dc   == {j \in 1..CN : CallDontCare(CU[i], CU[j])}
+    LET pyb  == {j \in Fn(i) : PyEqual(BV[i], BV[j])}
+        pyc  == {j \in Fn(i) : PyEqual(CV[i], CV[j])}
+        same == {j \in pyb : SameArguments(CU[i], CU[j])}               \* expected pattern (the oracle)
+        dc   == {j \in pyb \cup pyc : CallDontCare(CU[i], CU[j])}
     IN [i     |-> i,
         v     |-> CU[i],
-        bound |-> Tuple(Bound(CU[i])),                                 \* what the function must receive
-        eq    |-> {j \in 1..CN : Eq(CU[i], CU[j])},                    \* the same call (possibly written in another order)
+        bound |-> BV[i],                                               \* what the function must receive
+        eq    |-> {j \in pyc : Eq(CU[i], CU[j])},                      \* the same call (possibly written in another order)
         same  |-> same,
         dc    |-> dc,
-        mk    |-> {j \in 1..CN : SameFn(i, j) /\ CK[j] = CK[i]},       \* key classes of the wrapper as coded
-        bare  |-> {j \in 1..CN : SameFn(i, j) /\ CKB[j] = CKB[i]} \ (same \cup dc),     \* where the variants break MemoSound
-        kwvalues |-> {j \in 1..CN : SameFn(i, j) /\ CKV[j] = CKV[i]} \ (same \cup dc)]
+        mk    |-> {j \in Fn(i) : CK[j] = CK[i]},                       \* key classes of the wrapper as coded
+        bare  |-> {j \in Fn(i) : CKB[j] = CKB[i]} \ (same \cup dc),    \* where the variants break MemoSound
+        kwvalues |-> {j \in Fn(i) : CKV[j] = CKV[i]} \ (same \cup dc)]
 CallInit == /\ case \in {i \in 1..CN : i % NShards = Shard}
             /\ out = CallExpect(case)
 CallSpec == CallInit /\ [][Next]_<<case, out>>
@@ -244,15 +256,17 @@ CallSpec == CallInit /\ [][Next]_<<case, out>>
 InvCallWellFormed == CallWellFormed(CU[case])
 InvCallOracle == /\ case \in out.eq /\ out.eq \subseteq out.same /\ case \notin out.dc
                  /\ \A j \in out.same \cup out.dc : SameFn(case, j)
-                 /\ \A j \in 1..CN : /\ (j \in out.same) = SameArguments(CU[j], CU[case])
-                                     /\ (j \in out.dc) = CallDontCare(CU[j], CU[case])
-                 /\ \A j \in out.same : {k \in 1..CN : SameArguments(CU[j], CU[k])} = out.same
+                 /\ (case % CallLawStride = 0) =>
+                        /\ \A j \in 1..CN : /\ (j \in out.same) = SameArguments(CU[j], CU[case])
+                                            /\ (j \in out.dc) = CallDontCare(CU[j], CU[case])
+                                            /\ (j \in out.eq) = Eq(CU[j], CU[case])
+                        /\ \A j \in out.same : {k \in 1..CN : SameArguments(CU[j], CU[k])} = out.same
 (* the laws for the wrapper as coded (over the repaired to_hashable): total, sound, complete *)
 InvCallTotal    == MemoTotal(CU[case], Repaired)
-InvCallSound    == \A j \in 1..CN : SameFn(case, j) /\ CK[j] = CK[case] => j \in out.same \cup out.dc
+InvCallSound    == \A j \in Fn(case) : CK[j] = CK[case] => j \in out.same \cup out.dc
 InvCallComplete == \A j \in out.eq \ out.dc : CK[j] = CK[case]
 InvCallLawsAsOperators ==
-    (case % LawStride # 0) \/ \A j \in 1..CN : /\ MemoSound(CU[case], CU[j], WrapperAsCoded, Repaired)
+    (case % CallLawStride # 0) \/ \A j \in 1..CN : /\ MemoSound(CU[case], CU[j], WrapperAsCoded, Repaired)
                                                 /\ MemoComplete(CU[case], CU[j], WrapperAsCoded, Repaired)
 CallEmit == PrintT(<<"CALLV", ToJson(out)>>)
 =============================================================================
